@@ -43,6 +43,19 @@ def gen(ctx):
                 ops[0] = "c" + ops[0][1:]          # race on first use
             progs.append(",".join(ops))
         cases.append("%d\t%s\t%s\t%s" % (nt, ",".join(C.hexs(e) for e in exprs), ";".join(docs), "|".join(progs)))
+    # bulk cases: every thread compiles (through the shared default runtime) and searches thousands of DISTINCT expressions, so that anything
+    # shared and size-dependent behind compile (tables that fill up, get evicted or rehashed) is exercised while other threads are inside it
+    for _ in range(3 if ctx.tier == "quick" else 60):
+        nd = rng.choice([1300, 2200, 3000])
+        exprs = [rng.choice(["k%d", "a[%d]", "a.b%d", "`%d`", "[?a == `%d`]", "length(@) > `%d`", "k%d || a"]) % i for i in range(nd)]
+        docs = [G.rand_doc(rng, 2) for _ in range(2)] + ["{ " + G.enc_str("a") + " [ u1 u2 u3 ] " + G.enc_str("k7") + " t }"]
+        nt = rng.choice([8, 16])
+        progs = []
+        for t in range(nt):
+            order = list(range(nd))
+            rng.shuffle(order)
+            progs.append(",".join("c%d:%d" % (e, rng.randrange(len(docs))) for e in order[:rng.choice([600, 1100])]))
+        cases.append("%d\t%s\t%s\t%s" % (nt, ",".join(C.hexs(e) for e in exprs), ";".join(docs), "|".join(progs)))
     return cases
 
 
